@@ -126,6 +126,27 @@ def export(config, repo=None, use_cache=True):
     t0 = time.time()
     target = os.path.join(os.environ.get("TWLINT_TARGET_BASE") or WORK, "target-%s-%s" % (tag, config))
     os.makedirs(target, exist_ok=True)
+    # concurrent checks of the same tree share this target directory: serialise the export and
+    # re-use the result of whoever got there first (cargo would otherwise skip the wrapper for the second)
+    import fcntl
+    lock_fh = open(os.path.join(target, ".twlint.lock"), "w")
+    fcntl.flock(lock_fh, fcntl.LOCK_EX)
+    try:
+        return _export_locked(config, repo, use_cache, nocache, cache, cache_dir, tag, target, drv, meta, t0)
+    finally:
+        fcntl.flock(lock_fh, fcntl.LOCK_UN)
+        lock_fh.close()
+
+
+def _export_locked(config, repo, use_cache, nocache, cache, cache_dir, tag, target, drv, meta, t0):
+    if use_cache and os.path.exists(cache):
+        try:
+            with open(cache) as fh:
+                facts = json.load(fh)
+            meta["cached"] = True
+            return facts, meta
+        except Exception:
+            os.unlink(cache)
     # cargo must not replay a cached result for the workspace member
     fp = os.path.join(target, "debug", ".fingerprint")
     if os.path.isdir(fp):
